@@ -112,6 +112,13 @@ def units(tier, seed):
         for icpt in (True, False):
             block.append({"terms": fam, "icpt": icpt, "lv": {"f": ["", "fb", "fc"], "g": ["0", "g1"]}})
     u.append(block)
+    # string levels that read like numbers, booleans or None are level names all the same
+    block = []
+    for fam in [[t] for t in tf] + [[t1, t2] for t1 in tf for t2 in tf if set(t1) != set(t2)]:
+        for icpt in (True, False):
+            block.append({"terms": fam, "icpt": icpt, "lv": {"f": ["1", "2", "10"], "g": ["0", "1"]}})
+            block.append({"terms": fam, "icpt": icpt, "lv": {"f": ["True", "False", "None"], "g": ["1.5", "-2e3"]}})
+    u.append(block)
     # the same transform on two different variables in one design
     block = []
     for a1, a2 in (("poly(x, 2)", "poly(z, 2)"), ("scale(x)", "scale(z)"), ("poly(x, 2)", "poly(z, 3)"), ("center(x)", "scale(z)")):
@@ -265,6 +272,14 @@ def check_case(case, acc):
         acc.violation("design-exists", exc_sig(e), case, f"{f!r} raised {type(e).__name__}: {e}")
         return
     verdict = decide(f, case, df, X)
+    if verdict is None:  # the matrix the design gives for its own frame as new data is held to the same clauses
+        acc.calls += 1
+        try:
+            v1 = decide(f, case, df, np.asarray(dm.common.evaluate_new_data(df).design_matrix, dtype=float))
+        except Exception as e:
+            v1 = ("design-exists", exc_sig(e), f"raised {type(e).__name__}: {e}")
+        if v1 not in (None, "undecided"):
+            verdict = (v1[0], v1[1], "evaluate_new_data on the training frame: " + v1[2])
     if verdict == "undecided":
         acc.undecided += 1
         acc.case(f, "undecided", sample=False)
